@@ -82,6 +82,25 @@ def program(algopy, C, mons, kind):
 def smooth_program(algopy, name):
     if name == 'exp-sin':
         return lambda x: algopy.exp(x[0] * x[1]) + algopy.sin(x[1]) * x[0] + x[0] / (1. + x[1] * x[1])
+    Cm = np.array([[1., 2., 3.], [4., 5., 6.], [7., 8., 10.]])
+    Wm = np.array([[2., -1., 3.], [1., 4., -2.]])
+    cv = np.array([3., -2.])
+    if name == 'constant operands':
+        # constants of higher rank than the polynomial operand, constant (x) polynomial outer product
+        return lambda x: (algopy.sum(x / Cm) + algopy.sum(algopy.outer(cv, x) * Wm) + algopy.sum(Cm * x)
+                          + algopy.sum(algopy.dot(Wm, x) * cv) + algopy.sum((Cm - x) * (x + Cm)))
+    if name == 'in-place':
+        def g(x):
+            q = x * 1.0
+            q /= (1. + x * x)
+            q *= x
+            q += x[::-1]
+            q -= 2.0 * x
+            q /= 4.0
+            return algopy.sum(q * q)
+        return g
+    if name == 'matrix-valued':
+        return lambda x: algopy.outer(x, x * x) + algopy.outer(cv[:1] * np.ones(3), x) + Cm * x
     raise KeyError(name)
 
 
@@ -327,6 +346,10 @@ def units(tier, seed):
         add('hess_vec/N%d,deg%d' % (N, mm), 'h_driver', driver='hess_vec', N=N, M=1, m=mm, kind='scalar')
     for drv in ('jacobian', 'jac_vec', 'hessian', 'hess_vec'):
         add('%s/smooth exp-sin/N2' % drv, 'h_driver', driver=drv, N=2, M=1, m=0, smooth='exp-sin')
+        add('%s/constant operands of higher rank/N3' % drv, 'h_driver', driver=drv, N=3, M=1, m=0, smooth='constant operands')
+        add('%s/in-place arithmetic/N3' % drv, 'h_driver', driver=drv, N=3, M=1, m=0, smooth='in-place')
+        if drv in ('jacobian', 'jac_vec'):
+            add('%s/matrix-valued result/N3' % drv, 'h_driver', driver=drv, N=3, M=1, m=0, smooth='matrix-valued')
         add('%s/integer-typed point' % drv, 'h_intpoint', o={'validate': False}, driver=drv, N=2)
     for (N, d) in ([(1, 2), (2, 2), (2, 3), (3, 2), (2, 4)] if tier == 'quick' else
                    [(1, 2), (1, 3), (2, 2), (2, 3), (3, 2), (2, 4), (3, 3), (4, 2), (2, 5), (3, 4)]):
